@@ -1263,6 +1263,10 @@ def nonzero(c):
     return tuple(A([(i // st) % n for i in idx], (len(idx),), int64) for st, n in zip(_strides(c.shape), c.shape))
 
 
+def flatnonzero(c):
+    return nonzero(asarray(c).reshape(-1))[0]
+
+
 def argwhere(c):
     nz = nonzero(c)
     k = len(nz[0])
